@@ -155,6 +155,7 @@ class Scheduler(object):
 
 
 SCHED = None     # the scheduler of the scenario in progress (or None)
+FREE_DELAY = None  # free-running mode: callable invoked before each device call
 
 
 def _sched():
@@ -264,6 +265,8 @@ class FakeDevStream(object):
     s = _sched()
     if s is not None and s.me() is not None:
       s.switch("dev%d.%s" % (self.index, what))
+    elif FREE_DELAY is not None:
+      FREE_DELAY()
     if self.closed or self.pa.terminated:
       self.calls_after_close.append((what, "terminated" if self.pa.terminated
                                      else "closed"))
